@@ -11,8 +11,8 @@ use proptest::prelude::*;
 use rusl::platform::{Fd, IoUring, IoUringCompletionQueueEntry, IoUringParamFlags, IoUringSubmissionQueueEntry};
 use serde::{Deserialize, Serialize};
 
-use vh::ensure;
-use vh::runner::{no_panic, CaseReport, CaseResult, Ctx};
+use crate::ensure;
+use crate::runner::{no_panic, CaseReport, CaseResult, Ctx};
 
 #[derive(Debug, Clone, Copy, Serialize, Deserialize, PartialEq)]
 pub enum Op {
@@ -152,10 +152,10 @@ pub fn check_ring(c: &RingCase) -> CaseResult {
                     }
                     (None, false) => {}
                     (Some(_), false) => {
-                        vh::fail!("get_next_sqe_slot|slot-while-full", "step {step}: returned a slot although {in_flight} of {sq_entries} entries are unconsumed");
+                        crate::fail!("get_next_sqe_slot|slot-while-full", "step {step}: returned a slot although {in_flight} of {sq_entries} entries are unconsumed");
                     }
                     (None, true) => {
-                        vh::fail!("get_next_sqe_slot|none-while-free", "step {step}: returned None although only {in_flight} of {sq_entries} entries are unconsumed (ktail={:#x} khead={:#x})", sim.sq_ktail.load(Ordering::Relaxed), sim.sq_khead.load(Ordering::Relaxed));
+                        crate::fail!("get_next_sqe_slot|none-while-free", "step {step}: returned None although only {in_flight} of {sq_entries} entries are unconsumed (ktail={:#x} khead={:#x})", sim.sq_ktail.load(Ordering::Relaxed), sim.sq_khead.load(Ordering::Relaxed));
                     }
                 }
             }
@@ -226,10 +226,10 @@ pub fn check_ring(c: &RingCase) -> CaseResult {
                     }
                     (None, None) => {}
                     (None, Some(exp)) => {
-                        vh::fail!("get_next_cqe|none-while-pending", "step {step}: {} completions pending (oldest {exp}) but get_next_cqe returned None (chead={:#x} ctail={:#x})", cq_model.len(), sim.cq_khead.load(Ordering::Relaxed), sim.cq_ktail.load(Ordering::Relaxed));
+                        crate::fail!("get_next_cqe|none-while-pending", "step {step}: {} completions pending (oldest {exp}) but get_next_cqe returned None (chead={:#x} ctail={:#x})", cq_model.len(), sim.cq_khead.load(Ordering::Relaxed), sim.cq_ktail.load(Ordering::Relaxed));
                     }
                     (Some((_, ud, _, _)), None) => {
-                        vh::fail!("get_next_cqe|some-while-empty", "step {step}: returned a completion (user_data {ud}) although none is pending");
+                        crate::fail!("get_next_cqe|some-while-empty", "step {step}: returned a completion (user_data {ud}) although none is pending");
                     }
                 }
             }
